@@ -167,6 +167,38 @@ def c09 (c : Ctx) (prevFailed : List String) (ob : Obs) : Verdict :=
     | none => .na
   a.both b
 
+/-! ## C03 (at the level of the binary) -/
+
+/-- position of the first group of a task in the log -/
+def firstPos (names : List String) (n : String) : Option Nat :=
+  (names.zipIdx.find? (·.1 == n)).map (·.2)
+
+/-- One invocation that runs tasks — named ones, the default task, or the user's `clean` task under `--clean`: the
+    side-effect log shows every task at most ONCE (its commands in one block, never again later), nothing outside the
+    closure of what the action asks for, and every task only after the tasks it depends on that ran too.  When nothing
+    failed and the invocation succeeded, every task of the closure that has commands did run (unforced runs may skip
+    tasks with file dependencies: those are exempt). -/
+def c03 (c : Ctx) (ob : Obs) : Verdict :=
+  let a := action c.opts c.args c.world
+  if !a.isRun then .na
+  else
+    let req := requested a
+    if !(req.all fun n => (findTask c n).isSome) then .na
+    else
+      let run := closure c req
+      let names := (groupLog ob.log).filterMap (fun g => (taskAt c g.1).map (·.name))
+      let once := names.eraseDups.length == names.length
+      let inside := names.all run.contains
+      let ordered := names.all fun n =>
+        match findTask c n, firstPos names n with
+        | some t, some i => t.tdeps.all fun d => match firstPos names d with | some j => j < i | none => true
+        | _, _ => false
+      let complete := !((failedTasks c ob.log).isEmpty && ob.exit == 0) ||
+        run.all fun n => match findTask c n with
+          | some t => t.cmds.isEmpty || !t.fdeps.isEmpty || names.contains n
+          | none => false
+      ofBool (once && inside && ordered && complete)
+
 /-! ## C14 (at the level of the binary) -/
 
 /-- `--force` on an invocation that runs tasks (named ones, or the default task) and in which nothing fails: every task
